@@ -4,7 +4,8 @@ from __future__ import annotations
 
 from .. import harness as H, snap as S
 from ..evidence import Run, canon_hash
-from ..gen import build as B, parse as P
+from .. import model as M
+from ..gen import build as B, parse as P, spec as G
 from . import common as C
 from ..model import match_regex as M_match
 from ..gen.spec import _flat_unique as G_flat_unique
@@ -75,8 +76,48 @@ def str_parser_on_non_str_cells(spec, table):
     return False
 
 
+MECH_COLUMN_LEVEL = "column-level-drop_invalid_rows-inside-DataFrameSchema-violations-vanish"
+
+
+def force_column_level_drop(rng, spec, table, opts, p=0.15):
+    """``Column(..., drop_invalid_rows=True)`` inside a DataFrameSchema: one plain
+    column with checks gets the option and one cell violating its checks.  Whatever
+    the container does with the request, an object it returns must satisfy the
+    schema with every parsing option (this one included) switched off."""
+    if spec["kind"] != "frame" or not table["columns"] or rng.random() >= p:
+        return
+    names = [c["name"] for c in table["columns"]]
+    n = len(table["columns"][0]["values"])
+    if len(set(names)) != len(names) or n < 2:
+        return
+    cands = [(fs, c) for fs in spec["columns"]
+             if not fs["regex"] and fs["dtype"] != "bool" and not fs.get("parser") and fs["checks"]
+             for c in table["columns"]
+             if c["name"] == fs["name"] and c["phys"] == G.PHYS_OF[fs["dtype"]] and len(c["values"]) == n]
+    if not cands:
+        return
+    fs, c = rng.choice(cands)
+    bad = [x for x in G.POOL[fs["dtype"]]
+           if x is not None and x == x and not all(M.check_cell(k, x) for k in fs["checks"])]
+    if not bad:
+        return
+    fs["col_drop"] = True
+    c["values"][rng.randrange(n)] = rng.choice(bad)
+    # the table no longer conforms: the completeness clause does not apply
+    opts.extend(["combo:column_level_drop", "inexact:planted_violation_under_column_level_drop"])
+
+
 def classify(spec, table, backend, kind, out2, diff=None, res=None):
     reasons = out2.reasons() if out2 is not None else []
+    if backend == "pandas" and kind == "result-rejected-by-stripped-schema" and spec["kind"] == "frame" \
+            and out2 is not None and out2.errors:
+        asked = {fs["name"] for fs in spec["columns"] if fs.get("col_drop")}
+        if asked and all(e.column in asked and e.reason in ("DATAFRAME_CHECK", "SERIES_CONTAINS_NULLS",
+                                                           "SERIES_CONTAINS_DUPLICATES")
+                         for e in out2.errors):
+            # every cell the stripped schema rejects (check, nullability, uniqueness)
+            # lies in a column that asked for drop_invalid_rows itself
+            return MECH_COLUMN_LEVEL
     if backend == "pandas" and kind == "revalidation-changes-result" and spec["kind"] == "series":
         fs, col = spec["field"], table["columns"][0]
         null_texts = {t for ts in P.NULL_TEXT.values() for t in ts}
@@ -227,7 +268,8 @@ def pandas_case(run, spec, table, opts, muts):
     except Exception as e:
         run.count("build_error:" + type(e).__name__)
         return
-    lazy = bool(spec.get("drop_invalid_rows"))
+    lazy = bool(spec.get("drop_invalid_rows")) or (
+        spec["kind"] == "frame" and any(fs.get("col_drop") for fs in spec["columns"]))
     out = H.run_validate(schema, data, lazy=lazy)
     key = canon_hash(["pandas", spec, table])
     run.case(key, out.accepted and bool(opts),
@@ -248,6 +290,8 @@ def pandas_case(run, spec, table, opts, muts):
     stripped = P.strip(spec)
     out2, before, out3 = revalidate(B.pandas_schema(stripped), B.pandas_schema(spec), res, lazy)
     run.count("a:stripped_revalidation_checked")
+    if "combo:column_level_drop" in opts:
+        run.count("a:stripped_revalidation_checked:combo:column_level_drop")
     if out2.kind == "exc":
         run.count("undecided:revalidation_raised_internal_exception(C06):" + H.exc_sig(out2.exc))
         return
@@ -369,6 +413,8 @@ def run(run, ctx):
         else:
             spec, table, opts, muts = P.gen_parse_case(rng, index_combo_p=0.12, parser_combo_p=0.15,
                                                        same_component_p=0.05, unordered_mi_p=0.05)
+            # drawn from its own generator: the streams of the cases above are unchanged
+            force_column_level_drop(ctx.rng(PID + ":column_level_drop", i), spec, table, opts)
             pandas_case(run, spec, table, opts, muts)
         C.report_context_leaks(run, {"case": i})
     C.finish_context_monitor(run)
@@ -376,6 +422,7 @@ def run(run, ctx):
 
 def finalize(run, ctx):
     for name, m in [("a:stripped_revalidation_checked", 300), ("b:fixpoint_checked", 300),
+                    ("a:stripped_revalidation_checked:combo:column_level_drop", 10),
                     ("pandas:series:ok", 30), ("pandas:frame:ok", 150), ("polars:ok", 50),
                     ("polars-lazy:ok", 50), ("option:drop_invalid_rows", 50),
                     ("c:parseable_input_must_be_accepted_checked", 200),
